@@ -196,6 +196,25 @@ def deep_query_law(report, rng, t, inp):
         if c != len(want) or len(got) != len(want) or any(a is not b for a, b in zip(got, want)):
             report.fail('C10:deep-path-misses-repeats', 'path %r: count %d, select %d nodes; the tree holds %d matching nodes' % (p, c, len(got), len(want)),
                         dict(inp, path=p))
+        # ... reading through the same path finds the segment that first() finds (get_value descends into the FIRST repeat of
+        # every intermediate loop only)
+        if sid is not None and want:
+            try:
+                v_ = t.get_value(p + '01')
+            except Exception as ex:  # noqa
+                v_ = 'raised ' + type(ex).__name__
+            w_ = want[0].seg_data.get_value('01')
+            cur_ = t
+            for lp_ in loops:                        # the FIRST repeat at every level
+                nxt_ = [c_ for c_ in ctx_gen.live_children(cur_) if c_.type == 'loop' and c_.id == lp_]
+                cur_ = nxt_[0] if nxt_ else None
+                if cur_ is None:
+                    break
+            first_rep_holds = cur_ is not None and any(c_.type == 'seg' and c_.seg_data.get_seg_id() == sid for c_ in ctx_gen.live_children(cur_))
+            if v_ != w_:
+                report.fail('C10:deep-path-get-misses-later-repeats' if not first_rep_holds else 'C10:deep-path-get',
+                            'path %r exists (first() returns a segment whose element 01 is %r) but get_value(%r) gives %r' % (p, w_, p + '01', v_),
+                            dict(inp, path=p))
         # ... and exists / first answer the same question (also when the first repeat of a loop does not hold the segment)
         e, f = t.exists(p), t.first(p)
         if e != (len(want) > 0) or (f is None) != (len(want) == 0) or (f is not None and f is not want[0]):
